@@ -373,7 +373,7 @@ class WorkerPool:
         if worker.has_capacity and worker.is_alive:
           return worker
         # Do not keep a worker that was acquired but cannot be used.
-        worker.release()
+        worker.release(self)
 
   @property
   def workers(self) -> list[Worker]:
@@ -428,7 +428,7 @@ class WorkerPool:
       task = Task.maybe_as_task(task).set(blocking=True)
       result = worker.submit(task).result()
     finally:
-      worker.release()
+      worker.release(self)
     return result
 
   def iterate(
